@@ -46,6 +46,14 @@ func runC06(c *Ctx) {
 		c06InFlight(c)
 		return
 	}
+	if !mqtt.VerifHasCodec {
+		c.Note("C06: the white-box wrapper around readPacket / Parse does not compile against this tree; the parser-level enumeration is skipped, only the client-level parts (bytes fed to real clients) are judged")
+		c06ClientPart(c, false)
+		c06InFlight(c)
+		c06ClientPart(c, true)
+		Announce("")
+		return
+	}
 	c06ParserPart(c)
 	c06ClientPart(c, false)
 	c06InFlight(c)
